@@ -69,3 +69,10 @@ Proof.
   apply (MergeStep [] _ _ [_]). apply (MergeStep [_] _ _ []). apply (MergeStep [_] _ _ []). apply (MergeStep [] _ _ [_]).
   apply MergeDone. repeat constructor.
 Qed.
+
+(* an unparsable deliver_sm (body 00 01) whose generic_nack cannot be written: the hook still gets the PDU, once *)
+Example C15_actions_nonvacuous :
+  let pdu := [0;0;0;18; 0;0;0;5; 0;0;0;0; 0;0;16;146; 0;1] in
+  ser_hook_calls EncGsm pdu true = [1] /\ ser_hook_calls EncGsm pdu false = [1]
+  /\ match parse_header (firstn 16 pdu) with Ok h => length (rx_sent (react EncGsm pdu h)) = 1%nat /\ rx_parsed (react EncGsm pdu h) = false | Err _ => False end.
+Proof. cbn zeta. split; [vm_compute; reflexivity|]. split; [vm_compute; reflexivity|]. vm_compute. split; reflexivity. Qed.
